@@ -100,6 +100,7 @@ fn single_leaf_workload(program: Vec<u8>, muts: Vec<(Key, Vec<Word>)>) -> Worklo
         stale_prelude: false,
         prefix_prelude: false,
         alias_pred_hash: false,
+        flaky_program: None,
     }
 }
 
@@ -730,6 +731,20 @@ pub fn soup_workload(rng: &mut Rng) -> Workload {
     let mut c = gen::gen_case(rng, &cfg, false);
     for _ in 0..rng.usize(3) {
         gen::corrupt_graph(rng, &mut c.w);
+    }
+    if rng.chance(1, 5) && !c.w.programs.is_empty() {
+        // an inconsistent program store: the second lookup of one program (the one made to
+        // execute it) returns a version that also reads the post state
+        let i = rng.usize(c.w.programs.len());
+        let mut ops = gen::read_ops(&gen::ReadSpec {
+            post: true,
+            target: gen::ReadTarget::Own,
+            key: vec![rng.range(0, 3)],
+            count: 1 + rng.usize(2),
+            room: 12,
+        });
+        ops.extend(crate::ops::from_bytes(&c.w.programs[i]).unwrap_or_default());
+        c.w.flaky_program = Some((i, crate::ops::to_bytes(&ops)));
     }
     c.w
 }
